@@ -33,6 +33,17 @@ extern const char *const shim_fault_names[F_N];
 // per-run shim reset (clears lock/sem/fd bookkeeping)
 void shim_reset();
 
+// simulated processes: identity, credentials, liveness (pids start at SIM_PID_BASE, above any real pid)
+#define SIM_PID_BASE 5000000
+struct Proc { int spid; unsigned uid, gid; bool alive; bool killable; };
+void proc_define(int spid, unsigned uid, unsigned gid);
+Proc *proc_get(int spid);
+bool proc_alive(int spid);
+void proc_die();                                   // the calling task's process dies now (never returns)
+int fd_owner(int fd);
+int fds_owned_by(int spid, int *out, int max);     // number of descriptors the sim process holds
+bool path_owner(const char *path, unsigned *uid, unsigned *gid);   // chown ledger
+
 // tunables set by harnesses per run
 struct ShimCfg {
 	int64_t clock_res_ns;       // what clock_getres reports
@@ -41,9 +52,15 @@ struct ShimCfg {
 	uint32_t rate_read_short, rate_write_short, rate_write_err, rate_read_err;
 	uint32_t rate_falloc, rate_unlink, rate_emfile, rate_mmap, rate_epoll_shuffle;
 	int realloc_always_moves;
+	uint32_t rate_kill, rate_write_lost;
+	int kill_spid;              // sim process that may be killed at any of its libc calls (0: nobody)
+	int sndbuf_bytes;           // SO_SNDBUF forced on accepted / connected stream sockets (0: leave alone)
+	int64_t eagain_cost_ns;     // virtual time charged to a caller that got EAGAIN from send/writev
+	int64_t shm_quota_bytes;    // posix_fallocate above this fails with ENOSPC (0: no quota)
 	int epoll_no_truncate;      // epoll_shuffle fault only reorders the batch, never shortens it
 	int memcpy_stride_words;    // simk_memcpy yields once per this many words (0 = every word)
 	int64_t epoll_zero_cost_ns; // virtual cost charged per zero-timeout epoll_wait
+	int epoll_zero_cost_adaptive; // double that cost every 8 consecutive zero-timeout calls (up to x1024)
 	int64_t call_cost_ns;       // virtual cost charged per intercepted call (0 = none)
 };
 ShimCfg &shim_cfg();
@@ -70,6 +87,10 @@ struct ShimHooks {
 	void (*on_read)(int fd, long n);
 	// pipe() called by a sim task succeeded
 	void (*on_pipe)(int rfd, int wfd);
+	// a sim process died (its descriptors are already closed)
+	void (*on_proc_death)(int spid);
+	// a path was created ('c' file, 'd' directory), chmod'ed ('m') or chown'ed ('o') by a sim task
+	void (*on_path)(const char *path, char what);
 };
 ShimHooks &shim_hooks();
 
